@@ -81,8 +81,9 @@ var apiTexts = map[string]string{
 	"patchMoveFail": `[{"op":"remove","path":"/nope"},{"op":"move","from":"/a/b","path":"/missing/b"}]`,
 	"patchRmAbsent": `[{"op":"remove","path":"/nope"},{"op":"remove","path":"/a/nope/x"},{"op":"add","path":"/w","value":1},{"op":"remove","path":"/w"}]`,
 	"patchBigVal":   `[{"op":"add","path":"/bigv","value":{"member00":1,"list":[],"pad":"` + strings.Repeat("v", 1100) + `"}},{"op":"add","path":"/bigl","value":[` + strings.Repeat("1,", 600) + `1]},{"op":"add","path":"/bigv/extra","value":1},{"op":"add","path":"/bigv/list/-","value":"end"},{"op":"add","path":"/bigl/-","value":2},{"op":"remove","path":"/bigv/member00"}]`,
-	"docEsc":        `{"caf\u00e9":"\u00e9\ud83d\ude00 \u00fc","a\u002fb":[1,"\u00df"],"k\u0039":{"\u00e0":null}}`,
+	"docEsc":        `{"caf\u00e9 au lait, s'il vous pla\u00eet":1,"long name with a \"quote\" and a \t tab in it":[2],"caf\u00e9":"\u00e9\ud83d\ude00 \u00fc","a\u002fb":[1,"\u00df"],"k\u0039":{"\u00e0":null}}`,
 	"patchEsc":      `[{"op":"add","path":"/caf\u00e9x","value":"\u00fc\u00df"},{"op":"test","path":"/a~1b/0","value":1},{"op":"copy","from":"/k9","path":"/c\u00f9"},{"op":"test","path":"/caf\u00e9","value":"\u00e9\ud83d\ude00 \u00fc"}]`,
+	"patchArrRepl":  `[{"op":"add","path":"/a/b/0","value":"the first, rather long value"},{"op":"copy","from":"/a/b/0","path":"/kept"},{"op":"replace","path":"/a/b/0","value":"short"},{"op":"add","path":"/a/b/1","value":{"name":"original"}},{"op":"replace","path":"/a/b/1","value":7}]`,
 	"patch64":       `[{"op":"add","path":"/n","value":{"v":1}},{"op":"test","path":"/n/v","value":1}]`,
 	"patchBad":      `[{"op":"add","path":"/w","value":1},`,
 	"patchInv":      `[{"op":"add","path":"/w"}]`,
@@ -271,6 +272,8 @@ func newAPIWorld() *apiWorld {
 			return []byte(sb.String()), nil
 		}},
 		{"Equal(deep3k,deep3k) [nesting 3000: several at once exceed any process-wide depth budget]", true, func(w *apiWorld) ([]byte, error) { return boolBytes(v5.Equal(B("deep3k"), B("deep3k"))), nil }},
+		{"ParrRepl.Apply(docObj) [add into an array slot, copy it, replace it - twice]", true, func(w *apiWorld) ([]byte, error) { return w.patches["patchArrRepl"].Apply(B("docObj")) }},
+		{"MergePatch(docEsc,mp1) [long member names with escapes]", false, func(w *apiWorld) ([]byte, error) { return v5.MergePatch(B("docEsc"), B("mp1")) }},
 		// rejected inputs with very many open containers (the scanner keeps / drops its stack)
 		{"Equal(deepOpen,docObj) [2000 unclosed brackets]", true, func(w *apiWorld) ([]byte, error) { return boolBytes(v5.Equal(B("deepOpen"), B("docObj"))), nil }},
 		{"P.Apply(deepOver) [nesting 10001]", true, func(w *apiWorld) ([]byte, error) { return w.patches["patchOK"].Apply(B("deepOver")) }},
@@ -376,7 +379,7 @@ func decodeOnly(b []byte) ([]byte, error) {
 }
 
 func (w *apiWorld) decodePatches() {
-	for _, k := range []string{"patchOK", "patchArr", "patchTst", "patchNeg", "patchCopyFail", "patchCopyBig", "patchBig", "patchDeep", "patchWide", "patchS", "patchTstS", "rootPatchS", "patchMoveFail", "patchRmAbsent", "patchBigVal", "patchEsc", "patch64"} {
+	for _, k := range []string{"patchOK", "patchArr", "patchTst", "patchNeg", "patchCopyFail", "patchCopyBig", "patchBig", "patchDeep", "patchWide", "patchS", "patchTstS", "rootPatchS", "patchMoveFail", "patchRmAbsent", "patchBigVal", "patchEsc", "patch64", "patchArrRepl"} {
 		p, err := v5.DecodePatch([]byte(apiTexts[k])) // from a private copy: the Patch must not alias a shared buffer
 		if err != nil {
 			panic("harness patch " + k + ": " + err.Error())
